@@ -39,7 +39,8 @@ func cmdMcopy(args []string) error {
 	small := []uint64{0, 1, 31, 32, 33, 63, 64, 65, 96, 100}
 	big2 := func(e uint) *uint256.Int { return new(uint256.Int).Lsh(uint256.NewInt(1), e) }
 	huge := []*uint256.Int{big2(32), big2(63), new(uint256.Int).Sub(big2(64), uint256.NewInt(1)), big2(64), big2(255), new(uint256.Int).SetAllOne(),
-		new(uint256.Int).Sub(big2(64), uint256.NewInt(32)), uint256.NewInt(0x1FFFFFFFE0), uint256.NewInt(0x1FFFFFFFE1)}
+		new(uint256.Int).Sub(big2(64), uint256.NewInt(32)), uint256.NewInt(0x1FFFFFFFE0), uint256.NewInt(0x1FFFFFFFE1),
+		new(uint256.Int).Add(big2(64), uint256.NewInt(8)), new(uint256.Int).Add(big2(128), uint256.NewInt(32)), new(uint256.Int).Add(big2(200), uint256.NewInt(1))}
 	var cases []mcCase
 	stats := map[string]int{}
 	var sb strings.Builder
@@ -127,6 +128,8 @@ func cmdMcopy(args []string) error {
 				if want := 3 + 3*words + fee(nw) - fee(ow); before.Cost != want {
 					cs.Oracle = append(cs.Oracle, fmt.Sprintf("C15: MCOPY charged %d, EIP-5656 says %d", before.Cost, want))
 				}
+			} else if !ln.IsZero() {
+				cs.Oracle = append(cs.Oracle, fmt.Sprintf("C15: MCOPY(dst=%s, src=%s, len=%s) with an operand beyond 2^64 succeeded; memory up to max(dst,src)+len cannot be paid for", dst.Hex(), src.Hex(), ln.Hex()))
 			}
 		}
 		cs.Line = l.String()
